@@ -217,6 +217,12 @@ func (c *TermCtx) build(v ssa.Value) *Term {
 		}
 		return mk("alloc", v.Name()+"@"+funcName(v.Parent()), v)
 	case *ssa.FieldAddr:
+		if a, ok := v.X.(*ssa.Alloc); ok {
+			if sv := singleAssigned(a); sv != nil {
+				// a struct value spilled to a local cell (value receiver / parameter): the field of that value
+				return mk("field", fieldName(v.X.Type(), v.Field), v, c.Of(sv))
+			}
+		}
 		return mk("field", fieldName(v.X.Type(), v.Field), v, c.Of(v.X))
 	case *ssa.Field:
 		return mk("field", fieldName(v.X.Type(), v.Field), v, c.Of(v.X))
@@ -636,6 +642,22 @@ func singleAssigned(a *ssa.Alloc) ssa.Value {
 				val = r.Val
 			} else {
 				return nil // address stored somewhere
+			}
+		case *ssa.FieldAddr:
+			// reading a field of a spilled struct value is fine; writing through it is not
+			if r.Referrers() != nil {
+				for _, fr := range *r.Referrers() {
+					switch fr := fr.(type) {
+					case *ssa.UnOp, *ssa.DebugRef:
+					case *ssa.Store:
+						if fr.Addr == ssa.Value(r) {
+							return nil
+						}
+						return nil
+					default:
+						return nil
+					}
+				}
 			}
 		case *ssa.UnOp, *ssa.DebugRef:
 		case *ssa.MakeClosure:
